@@ -202,8 +202,9 @@ impl EngineInterface for Engine {
         if let Some((k, applied)) = *crash {
             if k == 0 {
                 if applied {
-                    *self.0.state.lock().unwrap() = state.clone();
-                    self.0.log.lock().unwrap().push(json!([0, self.0.sh.durable(state)]));
+                    let stored = through_codec(state)?;
+                    self.0.log.lock().unwrap().push(json!([0, self.0.sh.durable(&stored)]));
+                    *self.0.state.lock().unwrap() = stored;
                 }
                 *crash = None;
                 *self.0.crashed.lock().unwrap() = true;
@@ -211,13 +212,21 @@ impl EngineInterface for Engine {
             }
             *crash = Some((k - 1, applied));
         }
-        *self.0.state.lock().unwrap() = state.clone();
-        self.0.log.lock().unwrap().push(json!([0, self.0.sh.durable(state)]));
+        let stored = through_codec(state)?;
+        self.0.log.lock().unwrap().push(json!([0, self.0.sh.durable(&stored)]));
+        *self.0.state.lock().unwrap() = stored;
         Ok(())
     }
     async fn push_tx(&self, _ctx: &ctx::Ctx, _tx: Transaction) -> ctx::Result<bool> {
         Ok(true)
     }
+}
+
+/// The durable state as the storage layer keeps it: the bytes of `zksync_protobuf::encode`, read back with
+/// `decode` (what a restarted replica is given is what the codec returns, not the in-memory value).
+fn through_codec(state: &validator::ReplicaState) -> ctx::Result<validator::ReplicaState> {
+    zksync_protobuf::decode::<validator::ReplicaState>(&zksync_protobuf::encode(state))
+        .map_err(|e| anyhow::format_err!("durable replica state does not decode: {e:#}").into())
 }
 
 /// Polls `fut` to quiescence; if it is still pending advances the manual clock once and tries
